@@ -26,8 +26,11 @@ RULE += (
 RULE += (
     " Also: the reader round trip carries a CRC collider (same length, same checksum bytes) in front of the frame."
 )
+RULE += (
+    " Also: frames laid out from the pinned geometry of all types (vf.stdgeom, random content) must parse and round-trip."
+)
 ASSUMPTIONS = ["reference CRC (two cross-checked implementations) and own header arithmetic are the oracle"]
-GATES = ["reader_roundtrip_behind_collider", "serialize_checked", "reparse_checked", "frame_roundtrip_checked", "repr_checked", "lengths_enumerated",
+GATES = ["pinned_geometry_frames", "reader_roundtrip_behind_collider", "serialize_checked", "reparse_checked", "frame_roundtrip_checked", "repr_checked", "lengths_enumerated",
          "alias_families", "reader_roundtrip_checked", "noncanonical_source_checked", "frame_as_payload",
          "msm_mask_limit_shapes", "steered_checksums"]
 
@@ -312,6 +315,28 @@ def run(ctx):
                 tgt = rng.choice((255, 256, 511, 512, 1022, 1023))
                 if len(enc.payload) <= tgt:
                     one(ctx, streams.pad_payload(enc.payload, tgt, rng), identity + "+pad")
+    # frames of well-formed messages laid out from the PINNED geometry of every type (vf.stdgeom: the standards' field
+    # widths and repeat structure, random content): each is a valid frame, so it must parse and round-trip
+    from vf import stdgeom
+
+    for k, identity in enumerate(sorted(stdgeom.SPEC)):
+        if not ctx.mine(k + 7) or identity not in refmodel.identities():
+            continue
+        for j in range(9 if ctx.quick else 240):
+            try:
+                nbits, val, chosen = stdgeom.generate(identity, rng, ("small", "one", "random")[j % 3])
+            except RuntimeError:
+                continue
+            pl, _pw = stdgeom.to_payload(nbits, val, rng.getrandbits(8))
+            if len(pl) > 1023:
+                continue
+            if not parses(pl):
+                ctx.violation("valid-frame-not-parsed", f"{identity} with counts {chosen}: the frame of a message of the "
+                              f"standard's length ({nbits} bits) is rejected",
+                              {"payload": pl.hex(), "label": identity + "+geom"})
+                return
+            one(ctx, pl, identity + "+geom")
+            ctx.hit("pinned_geometry_frames")
     ctx.sample({"relation": "serialize() == D3|len16|payload|CRC24Q(ref); parse(serialize(m)) == m; "
                             "parse(frame).serialize() == frame; eval(repr(m)).payload == payload",
                 "example_payload_hex": streams.rand_unknown_payload(rng, 12).hex()})
@@ -321,7 +346,7 @@ def run(ctx):
 
 def replay(ctx, p):
     monitors.install_crc_monitor()
-    if p.get("label", "").endswith("+64cells") and not parses(bytes.fromhex(p["payload"])):
+    if p.get("label", "").endswith(("+64cells", "+geom")) and not parses(bytes.fromhex(p["payload"])):
         ctx.violation("valid-frame-not-parsed", f"{p['label']}: the frame of a well-formed message is rejected", p)
         return
     one(ctx, bytes.fromhex(p["payload"]), p.get("label", "replay"))
